@@ -567,6 +567,11 @@ func gamma_incomplete_imp(a, x float64, normalised, invert bool) float64 {
 
   result := 0.0
 
+  // the incomplete gamma functions are defined for a > 0 and x >= 0
+  if a <= 0.0 || x < 0.0 {
+    return math.NaN()
+  }
+
   if(int(a) >= MaxFactorial && !normalised) {
     //
     // When we're computing the non-normalized incomplete gamma
